@@ -238,6 +238,112 @@ func H_C07_loopValueStable() {
 
 var _ = reflect.ValueOf
 
+// H_C07_mapLoopValue: the key, the value and '.' of a range over a map with three entries,
+// stored during iteration K (symbolic) in variables that outlive it, still hold that
+// entry after the loop has moved on (checked independently of the iteration order: what
+// was rendered at capture time equals what the variables hold afterwards), for the := and
+// = forms and string / int element types.
+//
+//gosym:reach rendered
+func H_C07_mapLoopValue() {
+	k := ndChoice("k", 3)
+	form := ndChoice("form", 3)
+	mk := ndChoice("map", 3)
+	var subj interface{}
+	switch mk {
+	case 0:
+		subj = map[string]string{"a": "A", "b": "B", "c": "C"}
+	case 1:
+		subj = map[string]int{"a": 1, "b": 2, "c": 3}
+	default:
+		subj = map[int]string{1: "A", 2: "B", 3: "C"}
+	}
+	head := `{{ ck := "" }}{{ cv := "" }}{{ at := "" }}{{ n := 0 }}`
+	capture := `{{ if n == K }}{{ ck = k }}{{ cv = v }}{{ at = "" + k + "=" + v }}{{ end }}{{ n = n + 1 }}`
+	var src string
+	switch form {
+	case 0:
+		src = head + `{{ range k, v := S }}` + capture + `{{ end }}`
+	case 1:
+		src = head + `{{ k := "" }}{{ v := "" }}{{ range k, v = S }}` + capture + `{{ end }}`
+	default: // '.' is the value
+		src = head + `{{ range S }}{{ if n == K }}{{ cv = . }}{{ at = "=" + . }}{{ end }}{{ n = n + 1 }}{{ end }}`
+	}
+	src += `[{{ at }}]<{{ ck }}={{ cv }}>`
+	set := hxSet(nil, "/m.jet", src)
+	vars := make(VarMap)
+	vars.Set("S", subj)
+	vars.Set("K", k)
+	out, err := hxExec(set, "/m.jet", vars, nil)
+	vfReach("rendered")
+	vfAssert(err == nil, "renders")
+	// out is "[X]<X>" for some entry X
+	ok := len(out) >= 6 && len(out)%2 == 0
+	if ok {
+		h := len(out) / 2
+		ok = out[0] == '[' && out[h-1] == ']' && out[h] == '<' && out[len(out)-1] == '>' && out[1:h-1] == out[h+1:len(out)-1] && h > 3
+	}
+	vfAssert(ok, "a captured map key / value / '.' does not change when the loop advances")
+}
+
+// H_C07_emptyRange: a range over an empty slice, map or channel - in each variable form,
+// with and without an else branch - inside a body (template, if, range, block) that has
+// declared a variable: afterwards the variable is still visible and assignable there.
+//
+//gosym:reach rendered
+func H_C07_emptyRange() {
+	forms := []string{
+		`{{ range E }}x{{ end }}`,
+		`{{ range v := E }}{{ v }}{{ end }}`,
+		`{{ range i, v := E }}{{ v }}{{ end }}`,
+		`{{ range i, v := E }}{{ v }}{{ else }}e{{ end }}`,
+		`{{ range v = E }}{{ v }}{{ end }}`,
+		`{{ range E }}x{{ else }}e{{ end }}`,
+	}
+	f := ndChoice("form", len(forms))
+	site := ndChoice("site", 4)
+	ek := ndChoice("empty", 3)
+	vfAssume(!(ek == 2 && (f == 2 || f == 3))) // two variables over a channel is an error by design
+	var e interface{}
+	switch ek {
+	case 0:
+		e = []string{}
+	case 1:
+		e = map[string]int{}
+	default:
+		ch := make(chan int)
+		close(ch)
+		e = ch
+	}
+	body := `{{ x := "local" }}{{ v := "" }}` + forms[f] + `[{{ x }}]{{ x = "again" }}[{{ x }}]`
+	var src string
+	switch site {
+	case 0:
+		src = body
+	case 1:
+		src = `{{ if true }}` + body + `{{ end }}`
+	case 2:
+		src = `{{ range one }}` + body + `{{ end }}`
+	default:
+		src = `{{ block b() }}` + body + `{{ end }}`
+	}
+	set := hxSet(nil, "/m.jet", src+`<{{ isset(x) }}>`)
+	vars := make(VarMap)
+	vars.Set("E", e)
+	vars.Set("one", []int{1})
+	vars.Set("x", "execute") // the Execute variable of the same name must stay hidden
+	out, err := hxExec(set, "/m.jet", vars, nil)
+	vfReach("rendered")
+	vfAssert(err == nil, "renders")
+	els := ""
+	if f == 3 || f == 5 {
+		els = "e"
+	}
+	want := els + "[local][again]<true>"
+	vfNote(out)
+	vfAssert(out == want, "an empty range leaves the enclosing body's variables alone")
+}
+
 // H_C07_paramScope: a block's parameters are its own variables: a defaulted parameter
 // that the yield does not pass takes its default even when a variable of that name is
 // visible at the call site (in a template scope, the VarMap or the globals), and
